@@ -479,3 +479,10 @@ def r15_12(ctx):
     from .c03 import declaration_with_several_declarators
 
     declaration_with_several_declarators(ctx)
+
+
+@rule("R15.13", "C15", "nothing of a compound body is dropped when it is split into its parts (the text in front of the first marker belongs to the first part whatever it ends with)", min_instances=5)
+def r15_13(ctx):
+    from .c19 import compound_split_valuation
+
+    compound_split_valuation(ctx)
